@@ -22,23 +22,23 @@ func TestVerifReplayTransform(t *testing.T) {
 	}
 	scb := schemaClient.NewSchemaClientBound(schema.GetSchema(), scl)
 	docs := map[string]string{
-		"interface with its key":           `<data><interface><name>eth0</name><description>d</description></interface></data>`,
-		"list entry without its key":       `<data><interface><description>d</description></interface></data>`,
-		"two-key entry with one key":       `<data><doublekey><key1>a</key1><mandato>m</mandato></doublekey></data>`,
-		"top-level leaf-list":              `<data><rangetestLeaflist>5</rangetestLeaflist><rangetestLeaflist>6</rangetestLeaflist></data>`,
-		"leaf-list in a container":         `<data><leaflist><entry>a</entry><entry>b</entry></leaflist></data>`,
-		"unknown element":                  `<data><nosuchthing>1</nosuchthing></data>`,
-		"unknown child":                    `<data><interface><name>eth0</name><nosuchleaf>1</nosuchleaf></interface></data>`,
-		"empty data":                       `<data></data>`,
-		"empty document":                   ``,
-		"leaf with a child element":        `<data><patterntest><x>1</x></patterntest></data>`,
-		"container given as text":          `<data><interface>text</interface></data>`,
-		"nested list without keys":         `<data><interface><name>e</name><subinterface><description>d</description></subinterface></interface></data>`,
-		"value of the wrong type":          `<data><interface><name>e</name><mtu>notanumber</mtu></interface></data>`,
-		"choice case":                      `<data><choices><case1><case-elem><elem>x</elem></case-elem></case1></choices></data>`,
-		"identityref":                      `<data><identityref><cryptoA>otherAlgo</cryptoA></identityref></data>`,
-		"empty leaf":                       `<data><interface><name>e</name><description></description></interface></data>`,
-		"network-instance with type":       `<data><network-instance><name>default</name><type>default</type></network-instance></data>`,
+		"interface with its key":     `<data><interface><name>eth0</name><description>d</description></interface></data>`,
+		"list entry without its key": `<data><interface><description>d</description></interface></data>`,
+		"two-key entry with one key": `<data><doublekey><key1>a</key1><mandato>m</mandato></doublekey></data>`,
+		"top-level leaf-list":        `<data><rangetestLeaflist>5</rangetestLeaflist><rangetestLeaflist>6</rangetestLeaflist></data>`,
+		"leaf-list in a container":   `<data><leaflist><entry>a</entry><entry>b</entry></leaflist></data>`,
+		"unknown element":            `<data><nosuchthing>1</nosuchthing></data>`,
+		"unknown child":              `<data><interface><name>eth0</name><nosuchleaf>1</nosuchleaf></interface></data>`,
+		"empty data":                 `<data></data>`,
+		"empty document":             ``,
+		"leaf with a child element":  `<data><patterntest><x>1</x></patterntest></data>`,
+		"container given as text":    `<data><interface>text</interface></data>`,
+		"nested list without keys":   `<data><interface><name>e</name><subinterface><description>d</description></subinterface></interface></data>`,
+		"value of the wrong type":    `<data><interface><name>e</name><mtu>notanumber</mtu></interface></data>`,
+		"choice case":                `<data><choices><case1><case-elem><elem>x</elem></case-elem></case1></choices></data>`,
+		"identityref":                `<data><identityref><cryptoA>otherAlgo</cryptoA></identityref></data>`,
+		"empty leaf":                 `<data><interface><name>e</name><description></description></interface></data>`,
+		"network-instance with type": `<data><network-instance><name>default</name><type>default</type></network-instance></data>`,
 	}
 	n := 0
 	for name, xml := range docs {
